@@ -139,16 +139,8 @@ Definition bloom_contains (p : bparams) (f key : bytes) : option bool :=
       let kh := bloom_hash p key in
       Some (chk_probes (N.to_nat k) nbits (rot (b_crotr p) (b_crotl p) kh) kh f).
 
-(* the generator object: NewGenerator / Add / Generate (Generate also clears keyHashes) *)
-Record bgen := { g_n : Z; g_hashes : list N }.
-Definition bgen_new (bpk : Z) : bgen := {| g_n := bpk; g_hashes := [] |}.
-Definition bgen_add (p : bparams) (g : bgen) (key : bytes) : bgen :=
-  {| g_n := g_n g; g_hashes := g_hashes g ++ [bloom_hash p key] |}.
-Definition bgen_generate (p : bparams) (g : bgen) : option (bytes * bgen) :=
-  match bloom_generate p (g_n g) (g_hashes g) with
-  | Some f => Some (f, {| g_n := g_n g; g_hashes := [] |})
-  | None => None
-  end.
+(* The generator object (NewGenerator / Add / Generate) keeps the list of key hashes added since
+   the last Generate, which clears it; Add appends bloom_hash key. *)
 
 (* filter for a whole key list, as the filter block writer uses it *)
 Definition bloom_filter_of (p : bparams) (bpk : Z) (keys : list bytes) : option bytes :=
